@@ -19,7 +19,8 @@ EXPLANATION = (
     "(C03.R2) and every metadata-plane write goes through the R1 primitive; (R4) no other way to create a persistent file "
     "exists (C03.R1)."
     " (R1b) the local ParquetWriter is opened on the temp file's path (not on the already-open handle), so close() flushes every byte before the fsync."
-    ' (R5) a failing content write / file fsync / writer close / rename leaves the publisher as an exception (handlers on the way re-raise).')
+    ' (R5) a failing content write / file fsync / writer close / rename leaves the publisher as an exception (handlers on the way re-raise).'
+    ' (R6) _get_arrow_filesystem returns a filesystem object only for the S3 backend, so local data files always take the temp + fsync + rename branch.')
 NOT_DECIDED = "replay of the syscall trace in a power-loss model; filesystem semantics of fsync/rename"
 
 
